@@ -32,7 +32,7 @@ func dumpHNSW(c *Case, st comet.VerifHNSWState) {
 }
 
 func runHNSWHistory(r *rand.Rand, p hnswParams, o hnswOpts, t *Trace) *Case {
-	// "pass 0 for default": documented defaults are M 16, efConstruction 200, efSearch 200; a parameter that
+	// "pass 0 for default": defaults are M 16, efConstruction 200, efSearch = efConstruction; a parameter that
 	// equals its default is passed as 0 (or as a negative number) half of the time, so the defaulting rules of
 	// the constructor are part of what is compared with the model
 	cm, cefc, cefs := p.m, p.efc, p.efs
@@ -42,7 +42,7 @@ func runHNSWHistory(r *rand.Rand, p hnswParams, o hnswOpts, t *Trace) *Case {
 	if p.efc == 200 && r.Intn(2) == 0 {
 		cefc = -r.Intn(2)
 	}
-	if p.efs == 200 && r.Intn(2) == 0 {
+	if p.efs == p.efc && r.Intn(2) == 0 { // an unset efSearch takes the (defaulted) efConstruction
 		cefs = -r.Intn(2)
 	}
 	if cm != p.m || cefc != p.efc || cefs != p.efs {
